@@ -109,3 +109,176 @@ pub fn gen_edit(r: &mut Rng, bs: &[u8], hs: &[HeadAt]) -> Edit {
         _ => { let p = anypos(r); let k = r.below(9) as usize; Edit { pos: p, len: 0, with: r.bytes(k) } }                 // insert random bytes
     }
 }
+
+// ------------------------------------------------------------------------------------------------
+// structure-aware part: a lenient CBOR tree walk (it also descends into byte strings whose payload
+// is itself exactly one CBOR item — `#6.24(bytes)` wrappers, inline datums, script refs) and edits
+// that respect the nesting: an edit inside a wrapped payload re-writes the length heads of the
+// enclosing byte strings, so the carrier stays intact and only the inner buffer changes.
+
+#[derive(Clone, Copy, Debug)]
+pub struct Wrap { pub head_pos: usize, pub head_len: usize, pub payload_len: usize }
+
+#[derive(Clone, Debug)]
+pub struct Node {
+    pub start: usize, pub hlen: usize, pub end: usize, pub major: u8, pub ai: u8, pub val: u64,
+    pub depth: usize, pub children: usize,
+    /// enclosing byte-string wrappers, outermost first
+    pub wraps: Vec<Wrap>,
+    /// first item of a wrapped payload (the root of an inner decode buffer)
+    pub wrap_root: bool,
+}
+impl Node { pub fn indef(&self) -> bool { self.ai == 31 && (2..=5).contains(&self.major) } }
+
+fn head_at(bs: &[u8], pos: usize, limit: usize) -> Option<(u8, u8, usize, u64)> {
+    if pos >= limit { return None; }
+    let b = bs[pos];
+    let (major, ai) = (b >> 5, b & 31);
+    let arglen = match ai { 0..=23 => 0, 24 => 1, 25 => 2, 26 => 4, 27 => 8, 31 => 0, _ => return None };
+    if pos + 1 + arglen > limit { return None; }
+    let mut val = ai as u64;
+    if arglen > 0 { val = 0; for &y in &bs[pos + 1..pos + 1 + arglen] { val = (val << 8) | y as u64; } }
+    Some((major, ai, 1 + arglen, val))
+}
+
+fn walk(bs: &[u8], pos: usize, limit: usize, depth: usize, wraps: &[Wrap], root: bool, out: &mut Vec<Node>) -> Option<usize> {
+    if depth > 256 || out.len() > 400_000 { return None; }
+    let (major, ai, hlen, val) = head_at(bs, pos, limit)?;
+    let idx = out.len();
+    out.push(Node { start: pos, hlen, end: pos, major, ai, val, depth, children: 0, wraps: wraps.to_vec(), wrap_root: root });
+    let mut children = 0usize;
+    let end = match major {
+        0 | 1 => { if ai == 31 { return None; } pos + hlen }
+        7 => { if ai == 31 { return None; } pos + hlen }
+        2 | 3 => {
+            if ai == 31 {
+                let mut p = pos + 1;
+                loop {
+                    if p >= limit { return None; }
+                    if bs[p] == 0xff { break p + 1; }
+                    p = walk(bs, p, limit, depth + 1, wraps, false, out)?;
+                    children += 1;
+                }
+            } else {
+                let e = (pos + hlen).checked_add(val as usize)?;
+                if e > limit { return None; }
+                if major == 2 && val >= 2 {
+                    // a payload that is exactly one item: descend (keeps the nodes only on success)
+                    let mut w = wraps.to_vec();
+                    w.push(Wrap { head_pos: pos, head_len: hlen, payload_len: val as usize });
+                    let mark = out.len();
+                    match walk(bs, pos + hlen, e, depth + 1, &w, true, out) { Some(pe) if pe == e => children = 1, _ => out.truncate(mark) }
+                }
+                e
+            }
+        }
+        4 | 5 => {
+            let mut p = pos + hlen;
+            if ai == 31 {
+                loop {
+                    if p >= limit { return None; }
+                    if bs[p] == 0xff { break p + 1; }
+                    p = walk(bs, p, limit, depth + 1, wraps, false, out)?;
+                    children += 1;
+                }
+            } else {
+                let cnt = if major == 4 { val } else { val.checked_mul(2)? };
+                if cnt > (limit - p) as u64 { return None; }
+                for _ in 0..cnt { p = walk(bs, p, limit, depth + 1, wraps, false, out)?; children += 1; }
+                p
+            }
+        }
+        _ => { if ai == 31 { return None; } children = 1; walk(bs, pos + hlen, limit, depth + 1, wraps, false, out)? }
+    };
+    out[idx].end = end;
+    out[idx].children = children;
+    Some(end)
+}
+
+/// every item of `bs` (as far as it parses), in pre-order
+pub fn tree(bs: &[u8]) -> Vec<Node> {
+    let mut out = vec![];
+    let mut p = 0;
+    while p < bs.len() {
+        let mark = out.len();
+        match walk(bs, p, bs.len(), 0, &[], false, &mut out) { Some(e) => p = e, None => { out.truncate(mark); break; } }
+    }
+    out
+}
+
+/// replace `len` bytes at `pos` (inside the innermost of `wraps`) and repair the enclosing length heads
+pub fn nested_edit(wraps: &[Wrap], pos: usize, len: usize, with: Vec<u8>) -> Vec<Edit> {
+    let mut delta = with.len() as i64 - len as i64;
+    let mut edits = vec![Edit { pos, len, with }];
+    for w in wraps.iter().rev() {
+        let new_len = (w.payload_len as i64 + delta).max(0) as u64;
+        let width = match w.head_len { 1 if new_len < 24 => 0u8, 1 | 2 if new_len < 256 => 1, 1..=3 if new_len < 65536 => 2, 1..=5 if new_len < (1 << 32) => 4, _ => 8 };
+        let h = enc_head(2, new_len, width);
+        delta += h.len() as i64 - w.head_len as i64;
+        edits.push(Edit { pos: w.head_pos, len: w.head_len, with: h });
+    }
+    edits
+}
+
+/// minimal witnesses of the branches of the hand-written decoders (PlutusData: tag-102 / compact
+/// constructors, bignums, bounded-bytes chunks, maps, arrays; utils.rs wrappers: Nullable,
+/// MaybeIndefArray, Set tag 258, CborWrap), each also with its last byte cut off and with a break appended
+pub fn witnesses() -> Vec<Vec<u8>> {
+    let base: &[&str] = &[
+        "d8668200" , "d866820080", "d866821903e89f01ff", "d8669f0080ff", "d8669f009f01ffff", "d8669f008000ff", "d86683008000", "d8668100", "d86680", "d8669f00ff",
+        "d87980", "d8799fff", "d87a9f0102ff", "d87f8101", "d905008100", "d9057980", "d87880", "d87981d8799fd8668200 80ffff",
+        "c24101", "c249010000000000000000", "c34100", "c25f41014102ff", "c240", "c200", "c35f4100ff",
+        "4100", "5f58400000000000000000000000000000000000000000000000000000000000000000000000000000000000000000000000000000000000000000000000000000000000004100ff", "5fff", "5f5fffff", "5f4101",
+        "1bffffffffffffffff", "3bffffffffffffffff", "a10102", "bf0102ff", "bf01ff", "a1d8668200 8080",
+        "80", "9fff", "9f01", "9f9f9fffffff",
+        "f6", "f7", "d9010280", "d90102810000", "d901029f00ff", "d818430102ff",
+    ];
+    let mut out = vec![];
+    for h in base.iter() {
+        let b = hex::decode(h.replace(' ', "")).expect("witness hex");
+        out.push(b.clone());
+        if b.len() > 1 { out.push(b[..b.len() - 1].to_vec()); }
+        let mut c = b.clone(); c.push(0xff); out.push(c);
+    }
+    out
+}
+
+/// 1–2 structure-aware edits of `bs` (already expanded with their length repairs), or none if the
+/// tree offers no site for the drawn mutation
+pub fn gen_struct_edits(r: &mut Rng, bs: &[u8], t: &[Node], wit: &[Vec<u8>]) -> Vec<Edit> {
+    if t.is_empty() { return vec![]; }
+    // prefer deep / wrapped nodes: they are the ones flat mutations rarely hit cleanly
+    let pick = |r: &mut Rng, pred: &dyn Fn(&Node) -> bool| -> Option<Node> {
+        let c: Vec<&Node> = t.iter().filter(|n| pred(n)).collect();
+        if c.is_empty() { return None; }
+        let wrapped: Vec<&&Node> = c.iter().filter(|n| !n.wraps.is_empty()).collect();
+        if !wrapped.is_empty() && r.chance(2, 3) { return Some((**wrapped[r.below(wrapped.len() as u64) as usize]).clone()); }
+        Some(c[r.below(c.len() as u64) as usize].clone())
+    };
+    let buf_end = |n: &Node| -> usize { match n.wraps.last() { Some(w) => w.head_pos + w.head_len + w.payload_len, None => bs.len() } };
+    match r.below(9) {
+        0 => match pick(r, &|n| n.indef()) {                                   // drop the break of an indefinite item
+            Some(n) => nested_edit(&n.wraps, n.end - 1, 1, vec![]), None => vec![] },
+        1 => match pick(r, &|_| true) {                                        // plant a break at an item boundary
+            Some(n) => { let p = if r.chance(1, 2) { n.end } else { n.start }; nested_edit(&n.wraps, p, 0, vec![0xff]) } None => vec![] },
+        2 | 3 => match pick(r, &|_| true) {                                    // cut the (inner) buffer at an item boundary
+            Some(n) => {
+                let at = match r.below(4) { 0 => n.start, 1 => n.start + n.hlen, 2 => n.end.saturating_sub(1), _ => n.end };
+                let e = buf_end(&n);
+                if at >= e { vec![] } else { nested_edit(&n.wraps, at, e - at, vec![]) }
+            } None => vec![] },
+        4 => match pick(r, &|n| (4..=5).contains(&n.major) && !n.indef()) {    // definite -> indefinite at one site
+            Some(n) => { let mut body = vec![(n.major << 5) | 31]; body.extend_from_slice(&bs[n.start + n.hlen..n.end]); body.push(0xff);
+                nested_edit(&n.wraps, n.start, n.end - n.start, body) } None => vec![] },
+        5 => match pick(r, &|n| (4..=5).contains(&n.major) && n.indef()) {     // indefinite -> definite at one site
+            Some(n) => { let cnt = if n.major == 4 { n.children as u64 } else { (n.children / 2) as u64 };
+                let mut body = enc_head(n.major, cnt, 0); if cnt >= 24 { body = enc_head(n.major, cnt, 1); }
+                body.extend_from_slice(&bs[n.start + 1..n.end - 1]);
+                nested_edit(&n.wraps, n.start, n.end - n.start, body) } None => vec![] },
+        6 => match pick(r, &|n| n.major == 2 && !n.indef() && n.val > 0) {     // bytes -> chunked bytes
+            Some(n) => { let mut body = vec![0x5f]; body.extend_from_slice(&bs[n.start..n.end]); body.push(0xff);
+                nested_edit(&n.wraps, n.start, n.end - n.start, body) } None => vec![] },
+        _ => match pick(r, &|n| n.wrap_root || n.major == 6 || n.depth >= 2) { // splice a decoder-branch witness over an item
+            Some(n) => { let w = wit[r.below(wit.len() as u64) as usize].clone(); nested_edit(&n.wraps, n.start, n.end - n.start, w) } None => vec![] },
+    }
+}
